@@ -5,7 +5,10 @@ use crate::eviction::EvictionPolicy;
 use crate::store::CacheStore;
 use crate::{Cache, CacheConfig, KeyExtractor};
 use std::hash::Hash;
+#[cfg(not(feature = "verif-hooks"))]
 use std::sync::{Arc, Mutex};
+#[cfg(feature = "verif-hooks")]
+use {std::sync::Arc, tower_resilience_core::verif::sync::Mutex};
 use std::time::Duration;
 use tower::Layer;
 use tower_resilience_core::{EventListeners, FnListener};
